@@ -19,6 +19,9 @@ def cv(v, digits=9):
     return (cv(v.value, digits), v.units.value)
   if isinstance(v, tuple):
     return tuple(cv(x, digits) for x in v)
+  if isinstance(v, s.TextDecorationType):
+    # an unspecified component (None) and "off" (False) present identically
+    return ("TextDecorationType", bool(v.underline), bool(v.line_through), bool(v.overline))
   if hasattr(v, "__dataclass_fields__"):
     return (type(v).__name__,) + tuple(cv(getattr(v, f), digits) for f in v.__dataclass_fields__)
   if hasattr(v, "name"):
